@@ -81,10 +81,10 @@ AtomicMove<SlotType, BUFFER_SIZE> {
     #[inline(always)]
     fn publish_movable(&self, item: SlotType) -> (Option<NonZeroU32>, Option<SlotType>) {
         match self.leak_slot_internal(|| false) {
-            Some( (slot_ref, slot_id, len_before) ) => {
+            Some( (slot_ref, slot_id, _len_before) ) => {
                 unsafe { ptr::write(slot_ref, item); }
                 self.publish_leaked_internal(slot_id);
-                (NonZeroU32::new(len_before+1), None)
+                (NonZeroU32::new(self.len_after_publishing(slot_id)), None)
             },
             None => (None, Some(item)),
         }
@@ -101,10 +101,10 @@ AtomicMove<SlotType, BUFFER_SIZE> {
               -> Option<SetterFn> {
 
         match self.leak_slot_internal(report_full_fn) {
-            Some( (slot_ref, slot_id, len_before) ) => {
+            Some( (slot_ref, slot_id, _len_before) ) => {
                 setter_fn(slot_ref);
                 self.publish_leaked_internal(slot_id);
-                report_len_after_enqueueing_fn(len_before+1);
+                report_len_after_enqueueing_fn(self.len_after_publishing(slot_id));
                 None
             }
             None => Some(setter_fn),
@@ -228,6 +228,16 @@ AtomicMove<SlotType, BUFFER_SIZE> {
         while !self.try_publish_leaked_internal(slot_id) {
             relaxed_wait();
         }
+    }
+
+    /// Tells how many elements are available for consumption now that `slot_id` got published (never less than 1).\
+    /// Sampling the length *after* the publication -- rather than when the slot was reserved -- is what allows
+    /// producers to decide if a consumer needs to be awaken: consumers may have drained the queue (and gone to sleep)
+    /// between the slot reservation and its publication.
+    #[inline(always)]
+    pub fn len_after_publishing(&self, slot_id: u32) -> u32 {
+        let len_after = slot_id.overflowing_add(1).0.overflowing_sub(self.head.load(Relaxed)).0 as i32;
+        i32::max(1, len_after) as u32
     }
 
     /// Equivalent to [Self::publish_leaked_internal()], but without spinning
